@@ -60,7 +60,8 @@ enum FaultKind : unsigned {
   F_COND_ANY     = 1u << 8,   // notify_one wakes a PRNG-chosen waiter instead of the oldest
   F_STALL        = 1u << 9,   // a thread about to take a mutex is descheduled for a while (virtual ms) although it is runnable: a stalled / pre-empted thread
   F_OPEN_FAIL    = 1u << 10,  // open() of a path under the registered prefix fails with EMFILE (transient: the next attempt is drawn afresh)
-  F_ALL          = 0x7ffu
+  F_WAIT_FATAL   = 1u << 11,  // epoll_wait/select fail with ENOMEM (a fatal error: only in plans that expect the loop to end by it)
+  F_ALL          = 0xfffu
 };
 const char *fault_name(unsigned kind);
 
